@@ -104,13 +104,15 @@ impl Dechunker {
         let maybe_meta = src[..i].iter().position(|c| *c == b';');
         let len_end = maybe_meta.unwrap_or(i);
 
-        // Some sanity check for how long the chunk length is
-        if len_end > SANITY_CHECK {
-            return Err(Error::ChunkExpectedCrLf);
-        }
         let len_str = str::from_utf8(&src[..len_end])
             .map_err(|_| Error::ChunkLenNotAscii)?
             .trim();
+
+        // Some sanity check for how long the chunk length is, not counting
+        // surrounding blanks and leading zeros.
+        if len_str.trim_start_matches('0').len() > SANITY_CHECK {
+            return Err(Error::ChunkExpectedCrLf);
+        }
 
         let len = usize::from_str_radix(len_str, 16).map_err(|_| Error::ChunkLenNotANumber)?;
 
